@@ -45,6 +45,11 @@ def curve_through(draw, kind, P, u, sc):
         d = draw(pt)
         if abs(d) < 0.2 * sc:
             d = complex(sc, 0.5 * sc)
+        ax = draw(st.integers(0, 7))
+        if ax == 0:        # exactly vertical / horizontal lines (the solvers have branches of their own for them)
+            d = complex(0.0, abs(d) * (1 if d.imag >= 0 else -1))
+        elif ax == 1:
+            d = complex(abs(d) * (1 if d.real >= 0 else -1), 0.0)
         return X.through_point('L', P, u, [d], sc)
     if kind == 'Q':
         return X.through_point('Q', P, u, [P + draw(pt), P + draw(pt)], sc)
